@@ -152,7 +152,7 @@ func Read(r parser.ReadSeekSizer) (*Font, error) {
 		} else {
 			return nil, invalidSince("wrong type for Ordering")
 		}
-		if sup, ok := ROS[2].(int32); ok {
+		if sup, ok := asInt32(ROS[2]); ok {
 			ros.Supplement = sup
 		} else {
 			return nil, invalidSince("wrong type for Supplement")
